@@ -56,7 +56,7 @@ fn run_isolated_once(prop: &str, cases: &[String], timeout_ms: u64, mem_mb: u64)
         // (re)start a worker for cases[next..]
         let mut child = Command::new("/bin/sh")
             .arg("-c")
-            .arg(format!("ulimit -v {}; ulimit -s 8192; exec \"$0\" worker {}", mem_mb * 1024, prop))
+            .arg(format!("ulimit -v {}; ulimit -s 2048; exec \"$0\" worker {}", mem_mb * 1024, prop))
             .arg(&exe)
             .stdin(Stdio::piped()).stdout(Stdio::piped()).stderr(Stdio::null())
             .spawn().expect("spawn worker");
